@@ -345,6 +345,30 @@ class PyExtractor(Base):
             v = mk(_BINOPS[type(st.op)], self.ev(p, st.target), self.ev(p, st.value))
             self.assign(p, st.target, v, st.lineno)
             return [p]
+        if isinstance(st, ast.If) and self.inline:
+            # a call of an inlinable function inside the test: `if not f(...):` is read as `_inl = f(...); if not _inl:`
+            calls = [x for x in ast.walk(st.test) if isinstance(x, ast.Call) and ast.unparse(x.func) in self.inline]
+            if len(calls) == 1:
+                import copy
+                target = calls[0]
+                st2 = copy.copy(st)
+                def rebuild(e):
+                    if e is target:
+                        return ast.copy_location(ast.Name(id='_inl', ctx=ast.Load()), e)
+                    if isinstance(e, ast.UnaryOp):
+                        return ast.copy_location(ast.UnaryOp(op=e.op, operand=rebuild(e.operand)), e)
+                    if isinstance(e, ast.BoolOp):
+                        return ast.copy_location(ast.BoolOp(op=e.op, values=[rebuild(v) for v in e.values]), e)
+                    if isinstance(e, ast.Compare):
+                        return ast.copy_location(ast.Compare(left=rebuild(e.left), ops=e.ops, comparators=[rebuild(c) for c in e.comparators]), e)
+                    return e
+                st2.test = rebuild(st.test)
+                pre = ast.copy_location(ast.Assign(targets=[ast.Name(id='_inl', ctx=ast.Store())], value=target), st)
+                ast.fix_missing_locations(pre)
+                outs = []
+                for q in self.stmt(p, pre):
+                    outs.extend(self.stmt(q, st2) if not q.done else [q])
+                return outs
         if isinstance(st, ast.If):
             cond = self.ev(p, st.test)
             return self.branch(p, cond, lambda q: self.run([q], st.body), lambda q: self.run([q], st.orelse))
